@@ -278,6 +278,7 @@ restart:
 			lzma_options_lzma saved = c->lz;
 			if (op.has("lc")) { c->lz.lc = (uint32_t)op.get("lc"); c->lz.lp = (uint32_t)op.get("lp"); c->lz.pb = (uint32_t)op.get("pb"); }
 			if (op.has("dict")) c->lz.dict_size = (uint32_t)op.get("dict");
+			if (op.has("mf")) { c->lz.mf = (lzma_match_finder)op.get("mf"); if (c->lz.nice_len < 4) c->lz.nice_len = 4; }
 			lzma_ret ur = lzma_filters_update(&ss.s, f);
 			if (ur == LZMA_OK) { ++res.updates_ok; v.count("reach.filters_update_ok"); cur_chain = c; if (c != &es.chain) { ++res.chain_changes; v.count("reach.chain_changed"); } }
 			else {
@@ -617,9 +618,13 @@ static void gen_history(Rng &rng, Plan &plan, size_t len, bool sync_ok, bool ful
 			left -= n;
 			if (update_ok && rng.chance(350)) {
 				Op u("update");
-				if (kind == LZMA_SYNC_FLUSH || rng.chance(500)) {
+				if (kind == LZMA_SYNC_FLUSH || rng.chance(400)) {
 					int lc = (int)rng.below(5), lp = (int)rng.below(5 - (unsigned)lc);
 					u.set("lc", lc).set("lp", lp).set("pb", (int64_t)rng.below(5));
+				} else if (rng.chance(400)) {
+					// the same chain with another match finder (same dictionary: the encoder reuses what it can)
+					static const int mfs[] = { LZMA_MF_HC3, LZMA_MF_HC4, LZMA_MF_BT2, LZMA_MF_BT3, LZMA_MF_BT4 };
+					u.set("mf", mfs[rng.below(5)]);
 				} else {
 					u.set("chain2", 1).set("dist", (int64_t)rng.below(256));
 				}
